@@ -73,6 +73,15 @@ def _length_compared(f, b, c):
             for n2, init in e[1]:
                 if init is not None and any(nd[0] == "c" and nd[4] == c[4] for nd in walk(init)):
                     names.add(n2)
+    # locals computed from the length (need = (size_t) n + 1) carry it
+    for _round in range(2):
+        for b2, i2, e2 in f.elements():
+            if e2[0] == "A" and e2[1][1] == "=" and is_var(e2[1][2], kind="l") and any(is_var(z, kind="l") and isinstance(strip(z)[2], str) and strip(z)[2] in names for z in walk(e2[1][3])):
+                names.add(strip(e2[1][2])[2])
+            if e2[0] == "D":
+                for n2, init in e2[1]:
+                    if init is not None and any(is_var(z, kind="l") and isinstance(strip(z)[2], str) and strip(z)[2] in names for z in walk(init)):
+                        names.add(n2)
     for bid in f.live:
         cnd = f.blocks[bid].get("c")
         if cnd is None:
@@ -183,6 +192,9 @@ def run(prog, rule="R-TRUNC"):
                 lens = set()
                 for b2, i2, e2 in f.elements():
                     if e2[0] == "A" and is_var(e2[1][2], kind="l") and any(nd[0] == "c" and callee(nd) in FORMATTERS for nd in walk(e2[1][3])):
+                        lens.add(strip(e2[1][2])[2])
+                for b2, i2, e2 in f.elements():          # need = (size_t) n + 1
+                    if e2[0] == "A" and e2[1][1] == "=" and is_var(e2[1][2], kind="l") and any(is_var(z, kind="l") and isinstance(strip(z)[2], str) and strip(z)[2] in lens for z in walk(e2[1][3])):
                         lens.add(strip(e2[1][2])[2])
                 sized = any(is_var(x, kind="l") and strip(x)[2] in lens for x in walk(c[3][1]))
             if sized:
